@@ -80,7 +80,15 @@ func runDo(d *DoComb, sc doScenario) (viol []string, incon string) {
 	for i := 0; i < n; i++ {
 		i := i
 		if sc.FailMask&(1<<i) != 0 {
-			errs[i] = errors.New(fmt.Sprintf("failure of function %d", i))
+			// errors of different dynamic types (a store that insists on one concrete type would choke)
+			switch i % 3 {
+			case 0:
+				errs[i] = errors.New(fmt.Sprintf("failure of function %d", i))
+			case 1:
+				errs[i] = fmt.Errorf("failure of function %d: %w", i, errors.New("cause"))
+			default:
+				errs[i] = &doFailure{i}
+			}
 		}
 		fs[i] = func() (int, error) {
 			atomic.StoreInt64(&started[i], tick())
@@ -276,3 +284,8 @@ func popcount(x int) int {
 	}
 	return n
 }
+
+// doFailure is a third dynamic error type returned by failing functions.
+type doFailure struct{ fn int }
+
+func (e *doFailure) Error() string { return fmt.Sprintf("failure of function %d (custom type)", e.fn) }
